@@ -296,12 +296,17 @@ def existsPath (o : Graph.Ord κ) (g : G κ) (src dst : Option κ) : Except Err 
     if a = b then .ok false
     else (helper o g .ancestors (some a) false).map (fun l => l.any (· = b))
 
+/-- one iteration of `for term_id in source: augmented_term_ids.update(func(g, term_id, include_source))` -/
+def augStep (o : Graph.Ord κ) (g : G κ) (q : Q) (incl : Bool) (acc : Except Err (List κ)) (s : Option κ) :
+    Except Err (List κ) :=
+  match acc, helper o g q s incl with
+  | .ok a, .ok l => .ok (dedup (a ++ l))
+  | .error e, _ => .error e
+  | _, .error e => .error e
+
 /-- `_augment_impl` for a collection of term ids -/
 def augmentMany (o : Graph.Ord κ) (g : G κ) (q : Q) (srcs : List (Option κ)) (incl : Bool) : Except Err (List κ) :=
-  srcs.foldl (fun acc s => match acc, helper o g q s incl with
-    | .ok a, .ok l => .ok (dedup (a ++ l))
-    | .error e, _ => .error e
-    | _, .error e => .error e) (.ok [])
+  srcs.foldl (augStep o g q incl) (.ok [])
 
 /-- `_augment_impl` for a single `TermId` -/
 def augmentOne (o : Graph.Ord κ) (g : G κ) (q : Q) (src : Option κ) (incl : Bool) : Except Err (List κ) :=
